@@ -100,6 +100,12 @@ def sink_end(m, a, c):
     return UNIT
 
 
+@model("Tokenizer::dump_profile")
+def dump_profile(m, a, c):
+    # prints the profiling table through println!; output formatting is not the subject
+    return UNIT
+
+
 @model("Tokenizer::is_supported_simd_feature_detected")
 def simd_detected(m, a, c):
     return m.notes.get("simd", True)
